@@ -55,6 +55,9 @@ def check_droplet_tracker(ctx: Ctx):
         ctx.violate("PIPE", site, h, f"expected one locate_droplets call per frame, found {len(calls)}")
         return
     c = calls[0]
+    from ..astutil import call_bindings, dict_items
+
+    bound, unresolved = call_bindings(hv, c, loc)
     # options stored under their own names
     for opt in OPTIONS:
         s = stored.get(opt)
@@ -62,17 +65,17 @@ def check_droplet_tracker(ctx: Ctx):
         ctx.decide(ok, "FORWARD", f"{init.qualname}:{opt}", (init, s) if s is not None else init, f"constructor stores `{opt}` as given",
                    f"constructor parameter `{opt}` is not stored unchanged in self.{opt}")
         kw = ALIASES.get(opt, opt)
-        v = kwarg(c, kw)
-        okf = v is not None and U(v) == f"self.{opt}" and kw in sig
+        v = bound.get(kw)
+        okf = v is not None and U(hv.expand(v, c)) == f"self.{opt}" and kw in sig
         ctx.decide(okf, "FORWARD", f"{site}:{opt}", (h, c), f"self.{opt} is passed as {kw}= to locate_droplets",
                    f"the stored option `{opt}` is not forwarded unconditionally as `{kw}=self.{opt}` to locate_droplets (found `{U(v) if v is not None else 'nothing'}`): "
                    "the tracker analyses frames with other settings than the offline analysis")
     # no other analysis keyword invented
-    extra = [k.arg for k in c.keywords if k.arg not in [ALIASES.get(o, o) for o in OPTIONS]]
-    ctx.decide(not extra and not any(k.arg is None for k in c.keywords), "FORWARD", f"{site}:extra", (h, c), "no further analysis setting is fixed inside the tracker",
-               f"the tracker fixes extra settings {extra} that the offline analysis does not use")
+    extra = [k for k in bound if k not in [ALIASES.get(o, o) for o in OPTIONS] and k != loc.params[0]]
+    ctx.decide(not extra and not unresolved, "FORWARD", f"{site}:extra", (h, c), "no further analysis setting is fixed inside the tracker",
+               f"the tracker fixes extra settings {extra + unresolved} that the offline analysis does not use")
     # the field: extract_field(field, self.source, 0) → first positional argument
-    a0 = c.args[0] if c.args else None
+    a0 = bound.get(loc.params[0])
     ex = hv.expand(a0, c) if a0 is not None else None
     oks = isinstance(ex, ast.Call) and (hv.callee(ex) or "").endswith("extract_field") and [U(a) for a in ex.args] == [h.params[1], "self.source", "0"]
     ctx.decide(oks, "FORWARD", f"{site}:source", (h, c), "the analysed field is extract_field(field, self.source, 0)",
@@ -204,9 +207,14 @@ def check_length_tracker(ctx: Ctx):
                "time and value are not both appended once on every path through handle()")
     # finalize JSON
     f = m.func(f"{TRK}.LengthScaleTracker.finalize")
-    dd = [s for s in ast.walk(f.node) if isinstance(s, ast.Dict)]
-    okj = len(dd) == 1 and {(U(k), U(v)) for k, v in zip(dd[0].keys, dd[0].values)} == {("'times'", "self.times"), ("'length_scales'", "self.length_scales")}
-    dump = [c2 for c2 in ast.walk(f.node) if isinstance(c2, ast.Call) and U(c2.func) == "json.dump"]
+    from ..astutil import dict_items as _dict_items
+
+    fvw = view(m, f)
+    dump = [c2 for c2 in fvw.calls() if U(c2.func) == "json.dump"]
+    okj = False
+    if len(dump) == 1 and dump[0].args:
+        items = _dict_items(fvw, dump[0].args[0], dump[0])
+        okj = items is not None and {(k, U(v)) for k, v in items.items()} == {("times", "self.times"), ("length_scales", "self.length_scales")}
     ctx.decide(okj and len(dump) == 1, "IOAGREE", f.qualname, f, "finalize dumps {'times': …, 'length_scales': …} as JSON", "finalize does not dump the paired lists under 'times' and 'length_scales'")
     strict = [c2 for c2 in dump if isinstance(kwarg(c2, "allow_nan"), ast.Constant) and kwarg(c2, "allow_nan").value is False]
     ctx.decide(not strict, "IOAGREE", f.qualname + ":nan", (f, strict[0]) if strict else f, "recorded not-a-number values can be written",
